@@ -287,10 +287,21 @@ def run_index(case):
 # slice: every block of tiles (slice pairs), crop
 # ---------------------------------------------------------------------------------------------
 def spellings(a, b, n):
-    """all spellings within [-n, n] + None of the non-empty tile-index slice a:b (0 <= a < b <= n)."""
+    """every equivalent spelling of the non-empty tile-index block a:b (0 <= a < b <= n) on an axis of n tiles:
+    a:b, :b (a == 0), a: (b == n), : (whole), negative bounds a-n / b-n, and the ints a, a-n when b == a+1.
+    The first entry is the explicit spelling a:b.  Returns (spelling class, index object)."""
     aa = [("pos", a), ("neg", a - n)] + ([("none", None)] if a == 0 else [])
     bb = [("pos", b)] + ([("neg", b - n)] if b < n else []) + ([("none", None)] if b == n else [])
-    return [(f"{ka}:{kb}", (va, vb)) for ka, va in aa for kb, vb in bb]
+    out = [(f"{ka}:{kb}", slice(va, vb)) for ka, va in aa for kb, vb in bb]
+    if b == a + 1:
+        out += [("int", a), ("negint", a - n)]
+    return out
+
+
+def probes_1d(n):
+    """(spelling class, index object, block) probes for the OTHER axis of large tilings: whole axis spelled `:`,
+    first tile spelled 0:1, last tile spelled -1."""
+    return [("none:none", slice(None), (0, n)), ("pos:pos", slice(0, 1), (0, 1)), ("negint", -1, (n - 1, n))]
 
 
 def blocks_1d(n):
@@ -306,98 +317,106 @@ def run_crop(case, thorough=False):
     by, bx = blocks_1d(ny), blocks_1d(nx)
     sp_y = {ab: spellings(*ab, ny) for ab in by}
     sp_x = {cd: spellings(*cd, nx) for cd in bx}
-    n_sp = 0
-    # full product of the spellings on both axes for tilings with <= 3 tiles per axis (all tilings when thorough);
-    # larger tilings: plain spelling of every block here, every spelling of one axis x the whole other axis below
-    full_product = thorough or max(ny, nx) <= 3
+    n_sp = n_cr = 0
+    # The spelling is a full dimension: full product of the spellings on both axes for tilings with <= 2 tiles per
+    # axis (thorough: lookups always, crops <= 4 tiles per axis); larger tilings: the explicit spelling of every
+    # block here, and below every spelling of every block on one axis x probes on the other axis.
+    # Tiles whose tile exceeds base+1 behave exactly like tile == base+1 (one tile): quick leaves their spelled
+    # products to the probes.
+    redundant = K == "Tiles" and (m.tile[0] > m.H + 1 or m.tile[1] > m.W + 1)
+    full_crop = max(ny, nx) <= 4 if thorough else (max(ny, nx) <= 2 and not redundant)
+    full_lookup = thorough or full_crop
+    canon = {}
+
+    def lookup(idx, fy, fx, want):
+        nonlocal n_sp
+        st, got = call(T.__getitem__, idx)
+        n_sp += 1
+        if st != "ok" or not same_roi(got, want):
+            r.fail(f"{K}[block]:spelling:row({fy})/col({fx}):region", f"{case}: [{idx}] -> {got} want {want}")
+
+    def spelled_crop(idx, fy, fx, blk):
+        """a crop under another spelling equals the crop under the explicit spelling (judged by the full oracle)"""
+        nonlocal n_cr
+        a, b, c, d = blk
+        st, C2 = call(T.crop, idx)
+        n_cr += 1
+        key = f"{K}.crop:spelling:row({fy})/col({fx})"
+        want = m.region(a, b, c, d)
+        if st != "ok":
+            r.fail(f"{key}:raises", f"{case}: crop({idx}) raised {C2}")
+        elif type(C2) is not type(T):
+            r.fail(f"{key}:type", f"{case}: crop({idx}) -> {type(C2).__name__}")
+        elif yx_of(C2.base) != (want[0].stop - want[0].start, want[1].stop - want[1].start):
+            r.fail(f"{key}:base", f"{case}: crop({idx}).base = {C2.base}; tiles [{a}:{b},{c}:{d}] cover {want}")
+        elif yx_of(C2.shape) != (b - a, d - c):
+            r.fail(f"{key}:shape", f"{case}: crop({idx}).shape = {C2.shape} want {(b - a, d - c)}")
+        elif blk in canon and not (C2 == canon[blk] and canon[blk] == C2):
+            r.fail(f"{key}:differs-from-explicit-spelling",
+                   f"{case}: crop({idx}) = {C2!r} but crop([{a}:{b},{c}:{d}]) = {canon[blk]!r}")
+
     for a, b in by:
         for c, d in bx:
             want = m.region(a, b, c, d)
-            for iy, (fy, (ya, yb)) in enumerate(sp_y[(a, b)]):
-                for ix, (fx, (xa, xb)) in enumerate(sp_x[(c, d)]):
-                    if not full_product and (iy or ix):
-                        continue
-                    idx = (slice(ya, yb), slice(xa, xb))
-                    st, got = call(T.__getitem__, idx)
-                    n_sp += 1
-                    if st != "ok" or not same_roi(got, want):
-                        r.fail(f"{K}[slices]:region:y({fy}):x({fx})",
-                               f"{case}: [{idx}] -> {got} want {want}")
-            # int on one axis, slice on the other
-            if b == a + 1:
-                st, got = call(T.__getitem__, (a, slice(c, d)))
-                if st != "ok" or not same_roi(got, want):
-                    r.fail(f"{K}[int,slice]:region", f"{case}: [{a},{c}:{d}] -> {got} want {want}")
-            if d == c + 1:
-                st, got = call(T.__getitem__, (slice(a, b), c - nx))
-                if st != "ok" or not same_roi(got, want):
-                    r.fail(f"{K}[slice,int]:region", f"{case}: [{a}:{b},{c - nx}] -> {got} want {want}")
-
-            # crop == freshly built tiling of the cropped rectangle, indices re-based
+            # crop == freshly built tiling of the cropped rectangle, indices re-based (explicit spelling)
             roi = (slice(a, b), slice(c, d))
             st, C = call(T.crop, roi)
+            bc = "whole" if (b - a, d - c) == (ny, nx) else ("edge" if b == ny or d == nx else "inner")
             if st != "ok":
                 r.fail(f"{K}.crop:raises", f"{case}: crop({roi}) raised {C}")
-                continue
-            F = m.fresh(a, b, c, d)
-            bc = "whole" if (b - a, d - c) == (ny, nx) else ("edge" if b == ny or d == nx else "inner")
-            if type(C) is not type(T):
+            elif type(C) is not type(T):
                 r.fail(f"{K}.crop:type", f"{case}: crop({roi}) -> {type(C).__name__}")
-                continue
-            if yx_of(C.base) != (want[0].stop - want[0].start, want[1].stop - want[1].start):
-                r.fail(f"{K}.crop:base:{bc}", f"{case}: crop({roi}).base={C.base} region {want}")
-            if yx_of(C.shape) != (b - a, d - c):
-                r.fail(f"{K}.crop:shape:{bc}", f"{case}: crop({roi}).shape={C.shape}")
-            st, ch = call(lambda: C.chunks)  # noqa: B023
-            if st != "ok" or tuple(map(tuple, ch)) != (m.chy[a:b], m.chx[c:d]):
-                r.fail(f"{K}.crop:chunks:{bc}", f"{case}: crop({roi}).chunks={ch} want {(m.chy[a:b], m.chx[c:d])}")
-            if not (C == F and F == C):
-                r.fail(f"{K}.crop:not-fresh-tiling:{bc}", f"{case}: crop({roi}) = {C!r} != fresh {F!r}")
-            oy0, ox0 = want[0].start, want[1].start
-            for i in range(b - a):
-                for j in range(d - c):
-                    st, got = call(C.__getitem__, (i, j))
-                    w2 = m.region(a + i, a + i + 1, c + j, c + j + 1)
-                    w2 = (slice(w2[0].start - oy0, w2[0].stop - oy0), slice(w2[1].start - ox0, w2[1].stop - ox0))
-                    if st != "ok" or not same_roi(got, w2):
-                        r.fail(f"{K}.crop:rebase:{bc}",
-                               f"{case}: crop({roi})[{i},{j}] -> {got}; parent tile {(a + i, c + j)} re-based is {w2}")
-    # spelled crops: every spelling on one axis, the other axis left whole
-    for axis, blocks, sp, n in ((0, by, sp_y, ny), (1, bx, sp_x, nx)):
-        for ab in blocks:
-            for f, (va, vb) in sp[ab]:
-                s, full = slice(va, vb), slice(None)
-                roi = (s, full) if axis == 0 else (full, s)
-                want = m.region(ab[0], ab[1], 0, nx) if axis == 0 else m.region(0, ny, ab[0], ab[1])
-                st, got = call(T.__getitem__, roi)
-                n_sp += 1
-                if st != "ok" or not same_roi(got, want):
-                    r.fail(f"{K}[slices]:region:{'y' if axis == 0 else 'x'}({f}):other-axis-whole",
-                           f"{case}: [{roi}] -> {got} want {want}")
-                st, C = call(T.crop, roi)
-                chy = m.chy[ab[0]:ab[1]] if axis == 0 else m.chy
-                chx = m.chx[ab[0]:ab[1]] if axis == 1 else m.chx
-                ok = st == "ok" and type(C) is type(T)
-                if ok:
-                    st, ch = call(lambda: C.chunks)  # noqa: B023
-                    ok = st == "ok" and tuple(map(tuple, ch)) == (chy, chx)
-                if not ok:
-                    r.fail(f"{K}.crop:spelled:{'y' if axis == 0 else 'x'}({f})",
-                           f"{case}: crop({roi}) -> {C!r}; want chunks {(chy, chx)}")
-        if blocks:
-            # int index in crop (selects one row/column of tiles)
-            roi = (n - 1, slice(None)) if axis == 0 else (slice(None), -1)
-            st, C = call(T.crop, roi)
-            chy = m.chy[-1:] if axis == 0 else m.chy
-            chx = m.chx[-1:] if axis == 1 else m.chx
-            ok = st == "ok" and tuple(map(tuple, C.chunks)) == (chy, chx)
-            if not ok:
-                r.fail(f"{K}.crop:int-index", f"{case}: crop({roi}) -> {C!r}; want chunks {(chy, chx)}")
+            else:
+                canon[(a, b, c, d)] = C
+                F = m.fresh(a, b, c, d)
+                if yx_of(C.base) != (want[0].stop - want[0].start, want[1].stop - want[1].start):
+                    r.fail(f"{K}.crop:base:{bc}", f"{case}: crop({roi}).base={C.base} region {want}")
+                if yx_of(C.shape) != (b - a, d - c):
+                    r.fail(f"{K}.crop:shape:{bc}", f"{case}: crop({roi}).shape={C.shape}")
+                st, ch = call(lambda: C.chunks)  # noqa: B023
+                if st != "ok" or tuple(map(tuple, ch)) != (m.chy[a:b], m.chx[c:d]):
+                    r.fail(f"{K}.crop:chunks:{bc}",
+                           f"{case}: crop({roi}).chunks={ch} want {(m.chy[a:b], m.chx[c:d])}")
+                if not (C == F and F == C):
+                    r.fail(f"{K}.crop:not-fresh-tiling:{bc}", f"{case}: crop({roi}) = {C!r} != fresh {F!r}")
+                oy0, ox0 = want[0].start, want[1].start
+                for i in range(b - a):
+                    for j in range(d - c):
+                        st, got = call(C.__getitem__, (i, j))
+                        w2 = m.region(a + i, a + i + 1, c + j, c + j + 1)
+                        w2 = (slice(w2[0].start - oy0, w2[0].stop - oy0),
+                              slice(w2[1].start - ox0, w2[1].stop - ox0))
+                        if st != "ok" or not same_roi(got, w2):
+                            r.fail(f"{K}.crop:rebase:{bc}",
+                                   f"{case}: crop({roi})[{i},{j}] -> {got}; parent tile {(a + i, c + j)} "
+                                   f"re-based is {w2}")
+            # every spelling of the same block: region lookup and crop
+            for iy, (fy, sy) in enumerate(sp_y[(a, b)]):
+                for ix, (fx, sx) in enumerate(sp_x[(c, d)]):
+                    first = not (iy or ix)
+                    if full_lookup or first:
+                        lookup((sy, sx), fy, fx, want)
+                    if full_crop and not first:
+                        spelled_crop((sy, sx), fy, fx, (a, b, c, d))
+    # larger tilings: every spelling of every block on one axis x probes on the other axis
+    if not (full_lookup and full_crop):
+        for axis, blocks, sp, n_other in ((0, by, sp_y, nx), (1, bx, sp_x, ny)):
+            for ab in blocks:
+                for f, sl in sp[ab]:
+                    for pf, ps, pblk in probes_1d(n_other)[:3 if thorough else 2]:
+                        idx = (sl, ps) if axis == 0 else (ps, sl)
+                        blk = (*ab, *pblk) if axis == 0 else (*pblk, *ab)
+                        fy, fx = (f, pf) if axis == 0 else (pf, f)
+                        if not full_lookup:
+                            lookup(idx, fy, fx, m.region(*blk))
+                        if not full_crop:
+                            spelled_crop(idx, fy, fx, blk)
     # empty / reversed tile selections are outside the stated domain: record what happens
     for name, sel in (("empty-at-0", slice(0, 0)), ("empty-at-end", slice(ny, ny)), ("reversed", slice(ny, 0))):
         st, got = call(T.__getitem__, (sel, slice(None)))
         r.counts[f"obs:{K}[{name},:]:{'raises-' + got if st == 'exc' else 'returns'}"] = 1
     r.counts["spelled_block_lookups"] = n_sp
+    r.counts["spelled_crops"] = n_cr
     return r
 
 
@@ -553,32 +572,91 @@ def run_gbt(case, thorough=False):
                 r.fail(f"{K}{name}:out-of-range:{side}",
                        f"{case}: {name}({idx}) -> {got!r}; documented to raise IndexError outside [(0,0),{(ny, nx)})")
 
-    # blocks of tiles: lookup by slices, crop[...]
-    for a, b in blocks_1d(ny):
-        for c, d in blocks_1d(nx):
+    # blocks of tiles: lookup by slices, crop[...]; the spelling of the block is a full dimension:
+    # first GeoBox: full product of the per-axis spellings for tilings with <= 2 tiles per axis, beyond that every
+    # spelling of every block on one axis x probes {':', '0:1'} on the other; other GeoBoxes: probe ':' only
+    # (the spelling logic does not see the affine / CRS).  thorough: product up to 3 tiles per axis, 3 probes, all.
+    first_gb = (ak, ck) == ("north-up", "utm")
+    full_sp = max(ny, nx) <= 3 if thorough else (first_gb and max(ny, nx) <= 2)
+    n_probe = 3 if thorough else (2 if first_gb else 1)
+    by, bx = blocks_1d(ny), blocks_1d(nx)
+    sp_y = {ab: spellings(*ab, ny) for ab in by}
+    sp_x = {cd: spellings(*cd, nx) for cd in bx}
+    n_cr = 0
+    canon = {}
+
+    def spelled(idx, fy, fx, blk):
+        nonlocal n_cr
+        a, b, c, d = blk
+        want, _ = want_gbox(a, b, c, d)
+        sk = f"row({fy})/col({fx})"
+        st, got = call(gbt.__getitem__, idx)
+        if st != "ok" or not (got == want):
+            r.fail(f"{K}[block]:spelling:{sk}:geobox", f"{case}: [{idx}] -> {got!r} want {want!r}")
+        st, C2 = call(lambda: gbt.crop[idx])
+        n_cr += 1
+        C = canon.get(blk)
+        if st != "ok":
+            r.fail(f"{K}.crop:spelling:{sk}:raises", f"{case}: crop[{idx}] raised {C2}")
+        elif not (C2.base == want):
+            r.fail(f"{K}.crop:spelling:{sk}:base",
+                   f"{case}: crop[{idx}].base = {C2.base!r}; parent cropped to tiles [{a}:{b},{c}:{d}] is {want!r}")
+        elif yx_of(C2.shape) != (b - a, d - c):
+            r.fail(f"{K}.crop:spelling:{sk}:shape", f"{case}: crop[{idx}].shape = {C2.shape}")
+        elif tuple(map(tuple, C2.chunks)) != (m.chy[a:b], m.chx[c:d]):
+            r.fail(f"{K}.crop:spelling:{sk}:chunks", f"{case}: crop[{idx}].chunks = {C2.chunks}")
+        elif C is not None:
+            # equal to the crop under the explicit spelling, which went through the full oracle (every tile)
+            if not (C2 == C and C == C2):
+                r.fail(f"{K}.crop:spelling:{sk}:differs-from-explicit-spelling",
+                       f"{case}: crop[{idx}] != crop[{a}:{b},{c}:{d}]")
+        else:
+            for i, j in {(0, 0), (b - a - 1, d - c - 1)}:
+                w2, _ = want_gbox(a + i, a + i + 1, c + j, c + j + 1)
+                st, got = call(C2.__getitem__, (i, j))
+                if st != "ok" or not (got == w2):
+                    r.fail(f"{K}.crop:spelling:{sk}:rebase", f"{case}: crop[{idx}][{i},{j}] -> {got!r} want {w2!r}")
+
+    for a, b in by:
+        for c, d in bx:
             want, reg = want_gbox(a, b, c, d)
             roi = (slice(a, b), slice(c, d))
             st, got = call(gbt.__getitem__, roi)
             if st != "ok" or not (got == want):
                 r.fail(f"{K}[slices]:geobox", f"{case}: [{roi}] -> {got!r} want {want!r}")
-            roi2 = (slice(a - ny, b if b < ny else None), slice(c if c else None, d))
-            st, C = call(lambda: gbt.crop[roi2])  # noqa: B023
+            st, C = call(lambda: gbt.crop[roi])  # noqa: B023
             if st != "ok":
-                r.fail(f"{K}.crop:raises", f"{case}: crop[{roi2}] raised {C}")
-                continue
-            if not (C.base == want):
-                r.fail(f"{K}.crop:base", f"{case}: crop[{roi2}].base = {C.base!r} want {want!r}")
-            if yx_of(C.shape) != (b - a, d - c) or tuple(map(tuple, C.chunks)) != (m.chy[a:b], m.chx[c:d]):
-                r.fail(f"{K}.crop:chunks", f"{case}: crop[{roi2}]: shape {C.shape} chunks {C.chunks}")
-            Fg = GeoboxTiles(want, m.tile if m.K == "Tiles" else (m.chy[a:b], m.chx[c:d]))
-            if not (C == Fg):
-                r.fail(f"{K}.crop:not-fresh-tiling", f"{case}: crop[{roi2}] != GeoboxTiles of the cropped GeoBox")
-            for i in range(b - a):
-                for j in range(d - c):
-                    w2, _ = want_gbox(a + i, a + i + 1, c + j, c + j + 1)
-                    st, got = call(C.__getitem__, (i, j))
-                    if st != "ok" or not (got == w2):
-                        r.fail(f"{K}.crop:rebase", f"{case}: crop[{roi2}][{i},{j}] -> {got!r} want {w2!r}")
+                r.fail(f"{K}.crop:raises", f"{case}: crop[{roi}] raised {C}")
+            else:
+                canon[(a, b, c, d)] = C
+                if not (C.base == want):
+                    r.fail(f"{K}.crop:base", f"{case}: crop[{roi}].base = {C.base!r} want {want!r}")
+                if yx_of(C.shape) != (b - a, d - c) or tuple(map(tuple, C.chunks)) != (m.chy[a:b], m.chx[c:d]):
+                    r.fail(f"{K}.crop:chunks", f"{case}: crop[{roi}]: shape {C.shape} chunks {C.chunks}")
+                Fg = GeoboxTiles(want, m.tile if m.K == "Tiles" else (m.chy[a:b], m.chx[c:d]))
+                if not (C == Fg):
+                    r.fail(f"{K}.crop:not-fresh-tiling", f"{case}: crop[{roi}] != GeoboxTiles of the cropped GeoBox")
+                for i in range(b - a):
+                    for j in range(d - c):
+                        w2, _ = want_gbox(a + i, a + i + 1, c + j, c + j + 1)
+                        st, got = call(C.__getitem__, (i, j))
+                        if st != "ok" or not (got == w2):
+                            r.fail(f"{K}.crop:rebase", f"{case}: crop[{roi}][{i},{j}] -> {got!r} want {w2!r}")
+            if full_sp:
+                for iy, (fy, sy) in enumerate(sp_y[(a, b)]):
+                    for ix, (fx, sx) in enumerate(sp_x[(c, d)]):
+                        if iy or ix:
+                            spelled((sy, sx), fy, fx, (a, b, c, d))
+    if not full_sp:
+        for axis, blocks, sp, n_other in ((0, by, sp_y, nx), (1, bx, sp_x, ny)):
+            for ab in blocks:
+                for f, sl in sp[ab]:
+                    for pf, ps, pblk in probes_1d(n_other)[:n_probe]:
+                        idx = (sl, ps) if axis == 0 else (ps, sl)
+                        blk = (*ab, *pblk) if axis == 0 else (*pblk, *ab)
+                        fy, fx = (f, pf) if axis == 0 else (pf, f)
+                        spelled(idx, fy, fx, blk)
+    r.counts = {"spelled_crops": n_cr}
 
     # clip to every ordered pair of tiles
     for t1 in tiles:
@@ -1357,9 +1435,14 @@ def main(ctx):
         "Tiles": "base (H,W) in {1..9}^2, tile (h,w) in {1..10}^2" if q else "base {1..11}^2, tile {1..12}^2",
         "VariableSizedTiles": f"every composition of N <= {6 if q else 7} per axis",
         "tile_index": "every (r,c), negative spellings, Index2d, one step out of range",
-        "tile_blocks": "every non-empty a:b x c:d; spellings with None / negative bounds: full product on both axes "
-                       + ("for tilings with <= 3 tiles per axis, one axis at a time (other axis whole) for larger ones" if q
-                          else "always"),
+        "tile_blocks": "every non-empty a:b x c:d; every equivalent spelling per axis (a:b, :b, a:, :, negative "
+                       "bounds, ints a / a-n for single tiles) for region lookup AND crop: full product on both axes "
+                       + ("for tilings with <= 2 tiles per axis (Tiles: tile <= base+1); all other tilings: every "
+                          "spelling of every block on one axis x probes {':', '0:1'} on the other axis" if q else
+                          "(lookups always; crops for tilings with <= 4 tiles per axis, probes {':', '0:1', -1} "
+                          "beyond)")
+                       + "; GeoboxTiles[...] / crop[...]: same scheme on the first GeoBox "
+                       + ("(other GeoBoxes: probe ':' only)" if q else "and all others (product up to 3 tiles/axis)"),
         "clip": "every " + ("unordered" if q else "ordered") + " pair of tile indices, singletons, corners, a triple",
         "GeoboxTiles": "3 dyadic affines x {EPSG:32633, None}; base {1..5}^2 x tile {1,2,3,7}^2; compositions N<=4"
         if q else "3 dyadic affines; base {1..7}^2 x tile {1,2,3,4,5,8}^2; compositions N<=5",
